@@ -45,6 +45,12 @@ def write_table(path, storage, table):
         odslib.write_ods(path, odslib.content_xml([odslib.plain_sheet(table)]))
     elif storage == "ods-runs":
         odslib.write_ods(path, odslib.content_xml([odslib.compact_sheet(table, notes=True)]))
+    elif storage == "ods-groups":
+        # the first row is a "row to repeat" (table:table-header-rows), all others are grouped (one table:table-row-group)
+        rows = odslib.plain_sheet(table)
+        for index, row in enumerate(rows):
+            row["wrap"] = "header" if index == 0 else "group"
+        odslib.write_ods(path, odslib.content_xml([rows]))
     else:
         import xlsxwriter
         workbook = xlsxwriter.Workbook(path)
@@ -120,7 +126,7 @@ def _data_job(job):
     expected_out = entry["fresh"]["out"]
     problems = []
     for storage, fmt, suffix in (("csv", "delimited", ".csv"), ("ods", "ods", ".ods"), ("ods-runs", "ods", ".ods"),
-                                 ("xlsx", "excel", ".xlsx")):
+                                 ("ods-groups", "ods", ".ods"), ("xlsx", "excel", ".xlsx")):
         cid = cutplace.Cid()
         cid_rows = [["D", "Format", fmt]] + ([["D", "Encoding", "utf-8"]] if fmt == "delimited" else []) + (
             [["D", "Header", str(header)]] if header else []) + [
@@ -241,7 +247,7 @@ def run(tier, report):
         jobs = [(vec, folder, index) for index, vec in enumerate(tables)]
         outcomes = core.parallel_map(_data_job, jobs, chunk=10)
         for (vec, _, index), problems in zip(jobs, outcomes):
-            report.replayed += 4
+            report.replayed += 5
             report.count("data:%d:" % (index % len(TYPE_PAIRS)) + core.json.dumps(vec["hist"][0]["run"]["ds"]), True)
             stored = dict(vec)
             stored["index"] = index
